@@ -8,6 +8,8 @@ import (
 	"sync/atomic"
 	"testing"
 	"time"
+
+	"verifsim/sched"
 )
 
 // Config of one worker process (JSON file named by VSIM_CONFIG).
@@ -109,6 +111,7 @@ func Main(t *testing.T) {
 		}
 		out.Write(append(b, '\n'))
 	}
+	sched.SetAutoSites(os.Getenv("VSIM_AUTO") == "1")
 	var progress atomic.Int64
 	RaceMode = cfg.Race
 	if !cfg.Race {
@@ -166,6 +169,9 @@ func workerLoop(t *testing.T, cfg Config, progress *atomic.Int64, emit func(reco
 			continue
 		}
 		c.Seed = seed
+		// one case in three also explores the automatically inserted yields (every channel,
+		// WaitGroup, mutex and select operation of the engine), if the build is instrumented
+		c.Sched.Auto = sched.AutoSites() && uint64(seed)%3 == 0
 		c.ID = fmt.Sprintf("%s-%s-s%d-i%d", cfg.Prop, cfg.Tier, cfg.Seed, i)
 		if c.Prop == "" {
 			c.Prop = cfg.Prop
